@@ -176,6 +176,10 @@ fn execute_found(sc: &Scenario, acc: &mut Acc) -> Result<Vec<Found>, String> {
         acc.states.insert(st.state_hash());
         // earlier versions untouched: every file that existed before is byte-identical
         for (p, bytes) in pre_store.files() {
+            // a zero-length leftover of an earlier killed write may be completed
+            if bytes.is_empty() {
+                continue;
+            }
             match st.file(p) {
                 Some(nb) if nb == bytes => {}
                 Some(_) => out.push(Violation::new(prop, "earlier_files_untouched", "altered", format!("{p} changed during the faulted backup"))),
